@@ -178,7 +178,11 @@ func c10Wire(c *Ctx) {
 				case 1:
 					sess.conn.Pong(pad("t"))
 				case 2:
-					sess.conn.Notice("#c", pad(""))
+					if l > 400 { // Notice would split a text beyond SplitLen into two lines
+						sess.conn.Raw(pad("NOTICE #c :"))
+					} else {
+						sess.conn.Notice("#c", pad(""))
+					}
 				default:
 					sess.conn.Raw(pad("PONG :"))
 				}
@@ -199,7 +203,7 @@ func c10Wire(c *Ctx) {
 		var obs, shown []string
 		kp := 0
 		for k := range lines {
-			if k >= 2 && !prot[k-2] {
+			if k >= 2 && k-2 < len(prot) && !prot[k-2] {
 				shown = append(shown, fmt.Sprintf("(%dB@%.2fs unprotected)", len(lines[k]), times[k].Sub(t0).Seconds()))
 				if d := times[k].Sub(issuedAt[k-2]); d > 1900*time.Millisecond {
 					// the shortest hold the rule knows is 2 s; the queue was empty when this line was issued
